@@ -101,6 +101,11 @@ def correspondence(ctx):
                     if str(r2) != canon_s:
                         bad = (t, "parsed with simplify and validate: %r differs from %r (what the canonical spelling gives)" % (str(r2), canon_s))
                         break
+                    # the same text through the range class itself as the receiver of from_string
+                    r3 = rcls.from_string(t)
+                    if str(r3) != canon or not (r3 == base):
+                        bad = (t, "%s.from_string gives %r, VersionRange.from_string %r" % (rcls.__name__, str(r3), canon))
+                        break
                 except Exception as e:  # noqa: BLE001
                     bad = (t, "raises %s: %s" % (type(e).__name__, e))
                     break
